@@ -409,6 +409,9 @@ def overlap_schedules(tier):
     for before in ("fresh", "initialized", "paused", "ended"):
         for after in ("cleanup", "init", "init+cleanup"):
             rapid.append({"overlap": True, "failed_init": before, "then": after})
+    # a replication without an end (run length inf: "until nothing is left to do")
+    for drive in ("start", "rut+start", "steps+start"):
+        rapid.append({"overlap": True, "infinite_length": drive})
     # end_replication() issued by the handler of the k-th event (the run thread itself): nothing runs afterwards
     for variant in (0, 1, 2):
         for k in range(0, 7):
@@ -441,6 +444,8 @@ def sched_id(c):
         return "failed-init/%s/%s" % (c["failed_init"], c["then"])
     if "endrep_in_handler" in c:
         return "endrep-in-handler/%d/%d/%s" % (c["variant"], c["endrep_in_handler"], c["drive"])
+    if "infinite_length" in c:
+        return "infinite-length/" + c["infinite_length"]
     if "cross" in c:
         return "cross/%s/%s" % (c["cross"], c["target"])
     if "rapid" in c:
@@ -556,6 +561,48 @@ def grammar(out, log, warm_hex, sid):
 
 RAPID_PROG = {"clock": "float", "cap": 10 ** 9, "rep": {"start": fx(0.0), "warmup": fx(0.0), "length": fx(1e15)},
               "root": [["rel", fx(1.0), 0, 5]], "nodes": [[["rel", fx(1.0), 0, 5]]]}
+
+
+def run_infinite_length(c):
+    """The replication has no end (run length inf).  The run is over when nothing is left to do: every event was
+    carried out, the stream ends with STOP and END_REPLICATION, the simulator is ENDED."""
+    import copy
+    out = Outcome()
+    sid = sched_id(c)
+    out.label("overlap", "infinite-length")
+    out.nontrivial = True
+    prog = copy.deepcopy(PROGS[0])
+    prog["rep"]["length"] = fx(float("inf"))
+    ref = RefSim(prog)
+    ref.initialize()
+    ref.run()
+    h = Harness(prog)
+    h.rec.subscribe(h.sim)
+    h.model.on_exec = lambda m, seq, node: h.rec.log.append(["EXEC", enc_obs(m.simulator.simulator_time), seq])
+    try:
+        h.initialize()
+        errs = []
+        if c["infinite_length"] == "rut+start":
+            errs.append(h.run_piece(["run_up_to", fx(5.0)]))
+        elif c["infinite_length"] == "steps+start":
+            errs += [h.run_piece(["step"]) for _ in range(3)]
+        errs.append(h.run_piece(["start"]))
+        bad = [repr(e) for e in errs if e is not None]
+        if bad:
+            out.fail("overlap-raised:" + sid, bad[:2])
+        if h.model.trace != ref.trace:
+            out.fail("overlap-trace:" + sid, {"got": h.model.trace[-3:], "want": ref.trace[-3:],
+                                              "len": [len(h.model.trace), len(ref.trace)]})
+        if (h.sim.run_state.name, h.sim.replication_state.name) != ("ENDED", "ENDED"):
+            out.fail("overlap-state:" + sid, [h.sim.run_state.name, h.sim.replication_state.name])
+        names = [e[0] for e in h.rec.log if e[0] not in ("STARTING", "STOPPING")]
+        if names[-2:] != ["STOP", "END_REPLICATION"]:
+            out.fail("overlap-grammar:" + sid, {"tail": names[-4:]})
+        grammar(out, h.rec.log, prog["rep"]["warmup"], sid)
+    finally:
+        if h.finish():
+            out.fail("thread-leak", sid)
+    return out
 
 
 def run_endrep_in_handler(c):
@@ -1060,6 +1107,8 @@ def run_overlap(c):
         return run_failed_init(c)
     if "endrep_in_handler" in c:
         return run_endrep_in_handler(c)
+    if "infinite_length" in c:
+        return run_infinite_length(c)
     if "rapid" in c:
         return run_rapid(c)
     if "reentrant" in c:
